@@ -6,7 +6,8 @@ P=$1; M=$2
 BASE=${MUTBASE:-/tmp/mut}
 TAG=${MUTTAG:-}
 SRC=$BASE/$P/_mutants/$M
-DST=/verif/seeded/$P-$TAG$M
+PROP=${PROP:-$P}
+DST=/verif/seeded/$PROP-$TAG$M
 [ -f $SRC/patch.diff ] || { echo "no patch $SRC"; exit 2; }
 D=$(mktemp -d /tmp/cm.XXXXXX)
 trap 'rm -rf "$D"' EXIT
@@ -25,7 +26,7 @@ mkdir -p $DST
 cp $SRC/patch.diff $DST/
 cp $SRC/notes.md $DST/ 2>/dev/null
 for f in $SRC/demo.* $SRC/build_and_run.sh $SRC/*.h; do [ -f $f ] && cp $f $DST/; done
-python3 - "$P" "$TAG$M" "$APPLY" "$TESTS" "$DEMO_CLEAN" "$DEMO_MUT" "$D" "$SRC" <<'PY'
+python3 - "$PROP" "$TAG$M" "$APPLY" "$TESTS" "$DEMO_CLEAN" "$DEMO_MUT" "$D" "$SRC" <<'PY'
 import json, sys, subprocess
 p, m, apply_, tests, dc, dm, d, src = sys.argv[1:9]
 head = subprocess.check_output(['git', '-C', '/repo', 'log', '-1', '--format=%h']).decode().strip()
